@@ -674,8 +674,13 @@ class Interp:
         for k, v in self.class_members(cls).items():
             if k == name:
                 break
-            if not (isinstance(v, tuple) and len(v) == 2 and v[0] == "expr" and isinstance(v[1], ast.AST)):
-                fr.vars[k] = v
+            if isinstance(v, tuple) and len(v) == 2 and v[0] == "expr" and isinstance(v[1], ast.AST):
+                # an EARLIER class-level assignment: a class body runs top to bottom, so its value is visible here
+                # (e.g. `uFracDefault = 1.0 - zrFracDefault`, `(_densityTableK[0], _densityTableK[-1])`, `__meltingPoint`);
+                # evaluated on demand and memoised like class_lookup does (recursion only goes to earlier members)
+                v = self.eval_class_const(cls, k, v[1])
+                self.class_members(cls)[k] = v
+            fr.vars[k] = v
         try:
             outs = list(self.ev(expr, st))
         except Unsupported as e:
